@@ -464,7 +464,7 @@ def check_junction_split(view, R, prefix="C04"):
                         exp = np.where(psum > 1, I * p / np.where(psum > 1, psum, 1.0), I * p)
                 else:
                     exp = I * p / psum
-            illposed = (~residual) & (psum <= 0)
+            illposed = (psum <= 0) if not residual else np.zeros(T, dtype=bool)
             got = l["vals"]
             with np.errstate(all="ignore"):
                 ok = np.abs(got - exp) <= 1e-9 * np.maximum(1.0, np.abs(I))
